@@ -57,7 +57,7 @@ BuildObj(class, little, secs0, segs, opts) ==
                           sh_addralign |-> W8(secs[i].align), sh_entsize |-> W8(secs[i].entsize)])
         phdrOf(k) == LET g == segs[k]
                          o == IF g.sec > 0 THEN offs[g.sec + 1] ELSE g.off
-                         fs == IF g.sec > 0 THEN Len(secs[g.sec + 1].data) ELSE g.filesz
+                         fs == IF g.sec > 0 THEN (IF "part" \in DOMAIN g /\ g.part > 0 THEN g.part ELSE Len(secs[g.sec + 1].data)) ELSE g.filesz
                      IN Enc("phdr", class, little,
                             [p_type |-> W4(g.type), p_flags |-> W4(g.flags), p_offset |-> W8(o), p_vaddr |-> W8(0), p_paddr |-> W8(0),
                              p_filesz |-> W8(fs), p_memsz |-> W8(fs + g.memsz), p_align |-> W8(g.align)])
